@@ -468,15 +468,29 @@ func rulesAbstract(errText string, isNil bool, panicText string) rulesObs {
 	return o
 }
 
+// rulesNum writes a bound.  One rule text in four spells its bounds with leading zeros (010 is ten: bounds are decimal
+// integers), the choice being a function of the rule so that a replay writes the same text.
+func rulesNum(n int64, pad bool) string {
+	s := strconv.FormatInt(n, 10)
+	if !pad || n == math.MinInt64 {
+		return s
+	}
+	if n < 0 {
+		return "-0" + s[1:]
+	}
+	return "00" + s
+}
+
 func rulesText(kind, rule string, lo, hi int, msg string) string {
 	var s string
+	pad := (len(rule)+3*lo+5*hi+len(msg))%4 == 1 || (len(rule)+3*lo+5*hi+len(msg))%4 == -3
 	switch rule {
 	case "to", "oto":
-		s = rule + "=" + strconv.FormatInt(rulesReal(kind, int64(lo)), 10) + "~" + strconv.FormatInt(rulesReal(kind, int64(hi)), 10)
+		s = rule + "=" + rulesNum(rulesReal(kind, int64(lo)), pad) + "~" + rulesNum(rulesReal(kind, int64(hi)), pad)
 	case "le", "lt":
-		s = rule + "=" + strconv.FormatInt(rulesReal(kind, int64(hi)), 10)
+		s = rule + "=" + rulesNum(rulesReal(kind, int64(hi)), pad)
 	default: // ge gt eq noeq
-		s = rule + "=" + strconv.FormatInt(rulesReal(kind, int64(lo)), 10)
+		s = rule + "=" + rulesNum(rulesReal(kind, int64(lo)), pad)
 	}
 	if msg != "" {
 		s += "|" + msg
